@@ -376,6 +376,60 @@ def oracle(run, deep):
                     found.add("backslash")
                     report_violation(run, "oracle", t, why)
     overlapping_parses(run, found)
+    custom_engines(run, found)
+
+
+def custom_engines(run, found):
+    """Totality is a property of every engine a host can build: factories with inserted prefix / suffix / binary
+    operators (symbols and words), the legacy factory, keyword_operator=None, delegates; all token sequences up to
+    length 3 over a small alphabet that contains the inserted operators."""
+    import itertools
+    import yaql
+    from yaql import legacy
+    from yaql.language import exceptions as X
+    from yaql.language.factory import OperatorType as T
+    engines = []
+    try:
+        f = yaql.YaqlFactory()
+        f.insert_operator("not", False, "!", T.SUFFIX_UNARY, True)
+        f.insert_operator("*", True, "**", T.BINARY_RIGHT_ASSOCIATIVE, False)
+        engines.append(("suffix !, binary **", f.create(), ["!", "**"]))
+        f = yaql.YaqlFactory()
+        f.insert_operator(".", True, "%%", T.SUFFIX_UNARY, False)
+        f.insert_operator("-", False, "~", T.PREFIX_UNARY, False)
+        f.insert_operator("and", True, "nand", T.BINARY_LEFT_ASSOCIATIVE, False)
+        engines.append(("suffix %%, prefix ~, word nand", f.create(), ["%%", "~", "nand"]))
+        engines.append(("legacy", legacy.YaqlFactory().create(), ["=>"]))
+        engines.append(("no keyword operator", yaql.YaqlFactory(keyword_operator=None).create(), ["=>"]))
+        engines.append(("delegates", yaql.YaqlFactory(allow_delegates=True).create(), ["("]))
+    except Exception as e:
+        run.note("custom engines could not be built: %r" % e)
+    base = ["5", "'a'", "true", "foo", "$x", "(", ")", "[", "]", ",", ".", "-", "not", "f(", "1.5", "`v`", "{", "}", "=>", "null"]
+    for label, eng, extra in engines:
+        alphabet = base + extra
+        seqs = list(itertools.product(alphabet, repeat=2))
+        triples = list(itertools.product(alphabet, repeat=3))
+        seqs += run.rng.sample(triples, min(len(triples), run.n(1500, len(triples))))
+        seqs += [(a,) for a in alphabet]
+        for seq in seqs:
+            t = " ".join(seq)
+            res, e = lc.with_watchdog(lambda: eng(t), 5.0)
+            run.count("oracle:custom-engine")
+            why = None
+            if e is not None:
+                if isinstance(e, lc.Timeout):
+                    why = "parsing did not return within 5 s"
+                elif not isinstance(e, X.YaqlParsingException):
+                    why = "an exception that is not a YaqlParsingException escapes the parser: %s" % lc.qualname(e)
+                else:
+                    pos = getattr(e, "position", None)
+                    if pos is not None and not (isinstance(pos, int) and 0 <= pos < len(t)):
+                        why = "reported error position %r is outside the text of length %d" % (pos, len(t))
+            if why and ("custom:" + label) not in found:
+                found.add("custom:" + label)
+                run.case(("custom", label, t), nontrivial=True)
+                run.fail("violation", "C03 predicate fails on an engine with a customised operator table (%s): %s" % (label, why),
+                         {"engine": label, "text": t})
 
 
 def overlapping_parses(run, found):
